@@ -489,9 +489,9 @@ func c12Run(c *Ctx, idx int) CaseResult {
 func init() {
 	register(&Prop{
 		ID: "C12", Level: "exploration", Batch: 6, PerCaseTimeout: 60 * time.Second,
-		Rule:  "case i by i mod 6: (0) 2-8 racing Start calls on one id behind a barrier with vault read/write delays, (1) Start;Start back-to-back, (2) Start after completion, (3) Start of a submission older than WithMaxSubmit(100 ms) by 1.5 s, (4) Start/Wait/Plan/Status on unknown, nil and deleted ids, (5) PRNG programs of 1-8 client goroutines over Submit/Start/Wait/Status/Plan on known/unknown/nil/deleted ids; all plans are all-success, no-retry; oracle: process alive, every action invoked at most once (exactly once if a Start succeeded), a Start after a successful Start's return is rejected, rejected Starts cause no write/begin; each batch of 6 histories runs in its own child process; distinct by (template, call/outcome list)",
-		Cases: nCases(120, 3000),
-		Run:   c12Run,
+		Rule:            "case i by i mod 6: (0) 2-8 racing Start calls on one id behind a barrier with vault read/write delays, (1) Start;Start back-to-back, (2) Start after completion, (3) Start of a submission older than WithMaxSubmit(100 ms) by 1.5 s, (4) Start/Wait/Plan/Status on unknown, nil and deleted ids, (5) PRNG programs of 1-8 client goroutines over Submit/Start/Wait/Status/Plan on known/unknown/nil/deleted ids; all plans are all-success, no-retry; oracle: process alive, every action invoked at most once (exactly once if a Start succeeded), a Start after a successful Start's return is rejected, rejected Starts cause no write/begin; each batch of 6 histories runs in its own child process; distinct by (template, call/outcome list)",
+		Cases:           nCases(120, 3000),
+		Run:             c12Run,
 		DiedIsViolation: true,
 		RaceAttr:        raceHas("execute.(*Plans).Start", "execute.(*Plans).runPlan", "execute.(*Plans).Wait", "coercion.(*Workstream)"),
 		MinNontrivial:   30,
